@@ -2,6 +2,7 @@ package c13
 
 import (
 	"fmt"
+	"math"
 	"reflect"
 	"sort"
 
@@ -130,15 +131,25 @@ func positions(found, shapes []s2.Shape) []int {
 func compareContains(hist, fresh *s2.ShapeIndex, hs, fs []s2.Shape, model int, p s2.Point) string {
 	hq := s2.NewContainsPointQuery(hist, vertexModels[model])
 	fq := s2.NewContainsPointQuery(fresh, vertexModels[model])
-	if g, w := hq.Contains(p), fq.Contains(p); g != w {
-		return fmt.Sprintf("ContainsPointQuery(model %d).Contains(%v) = %v, fresh index says %v", model, p, g, w)
-	}
-	if g, w := positions(hq.ContainingShapes(p), hs), positions(fq.ContainingShapes(p), fs); !reflect.DeepEqual(g, w) {
-		return fmt.Sprintf("ContainsPointQuery(model %d).ContainingShapes(%v) = shapes %v, fresh index says %v", model, p, g, w)
-	}
-	for i := range hs {
-		if g, w := hq.ShapeContains(hs[i], p), fq.ShapeContains(fs[i], p); g != w {
-			return fmt.Sprintf("ContainsPointQuery(model %d).ShapeContains(shape %d, %v) = %v, fresh index says %v", model, i, p, g, w)
+	// The first call after an Add is the one that has to notice the pending
+	// update, for the benefit of all later calls: the three methods take turns
+	// at being first (the turn is a function of the probe, so replay is exact).
+	for j, rot := 0, int(math.Float64bits(p.X)%3); j < 3; j++ {
+		switch (j + rot) % 3 {
+		case 0:
+			if g, w := hq.Contains(p), fq.Contains(p); g != w {
+				return fmt.Sprintf("ContainsPointQuery(model %d).Contains(%v) = %v, fresh index says %v", model, p, g, w)
+			}
+		case 1:
+			if g, w := positions(hq.ContainingShapes(p), hs), positions(fq.ContainingShapes(p), fs); !reflect.DeepEqual(g, w) {
+				return fmt.Sprintf("ContainsPointQuery(model %d).ContainingShapes(%v) = shapes %v, fresh index says %v", model, p, g, w)
+			}
+		case 2:
+			for i := len(hs) - 1; i >= 0; i-- {
+				if g, w := hq.ShapeContains(hs[i], p), fq.ShapeContains(fs[i], p); g != w {
+					return fmt.Sprintf("ContainsPointQuery(model %d).ShapeContains(shape %d, %v) = %v, fresh index says %v", model, i, p, g, w)
+				}
+			}
 		}
 	}
 	return ""
@@ -148,20 +159,33 @@ func compareCrossings(hist, fresh *s2.ShapeIndex, hs, fs []s2.Shape, a, b s2.Poi
 	hq := s2.NewCrossingEdgeQuery(hist)
 	fq := s2.NewCrossingEdgeQuery(fresh)
 	ct := crossType(all)
+	perShape := func() string {
+		for i := len(hs) - 1; i >= 0; i-- {
+			ge := append([]int(nil), hq.Crossings(a, b, hs[i], ct)...)
+			we := append([]int(nil), fq.Crossings(a, b, fs[i], ct)...)
+			if len(ge) == 0 && len(we) == 0 {
+				continue
+			}
+			if !reflect.DeepEqual(ge, we) {
+				return fmt.Sprintf("Crossings(shape %d, all=%v) = %v, fresh index says %v", i, all, ge, we)
+			}
+		}
+		return ""
+	}
+	// either method first (see compareContains)
+	first := math.Float64bits(a.X)%2 == 1
+	if first {
+		if d := perShape(); d != "" {
+			return d
+		}
+	}
 	g := edgeMapByPos(hq.CrossingsEdgeMap(a, b, ct), hs)
 	w := edgeMapByPos(fq.CrossingsEdgeMap(a, b, ct), fs)
 	if !reflect.DeepEqual(g, w) {
 		return fmt.Sprintf("CrossingsEdgeMap(all=%v) = %v, fresh index says %v", all, g, w)
 	}
-	for i := range hs {
-		ge := append([]int(nil), hq.Crossings(a, b, hs[i], ct)...)
-		we := append([]int(nil), fq.Crossings(a, b, fs[i], ct)...)
-		if len(ge) == 0 && len(we) == 0 {
-			continue
-		}
-		if !reflect.DeepEqual(ge, we) {
-			return fmt.Sprintf("Crossings(shape %d, all=%v) = %v, fresh index says %v", i, all, ge, we)
-		}
+	if !first {
+		return perShape()
 	}
 	return ""
 }
